@@ -34,7 +34,7 @@ ASSUMPTIONS = [
 ]
 TIERS = {
     "quick": {"shards": 16, "cases": 500, "timeout": 600},
-    "thorough": {"shards": 16, "cases": 6000, "timeout": 7200},
+    "thorough": {"shards": 16, "cases": 48000, "timeout": 7200},
 }
 FLOORS = {
     "quick": {"programs": 1500, "elements_compared": 100000, "distinct_nontrivial": 150, "bursts_observed": 20000, "cases_with_loops": 200, "cases_dynamic": 200, "cases_offset": 200, "cases_unit-dims": 200},
